@@ -27,8 +27,8 @@ LEVEL_NOTE = (
 TECHNIQUE = "property-based testing: Hypothesis random input files through the CLI (in-process + subprocess sample) vs independent naming rule, recount and parsers"
 DESIGN_REF = "DESIGN.md section 6 (C12)"
 RULE = (
-    "Hypothesis cases: binary input <=5 object / <=4 species leaves, leaf names <species>_<id>, every ancestor of both trees independently unnamed, "
-    "freshly named or named like O<k>/S<k> (k<=4), leaf_object_species present or omitted, leaf_syntenies present (<=3 families, possibly "
+    "Hypothesis cases: binary input <=5 object / <=4 species leaves (half of the `lca` cases 8..14 object / <=10 species leaves, where generated labels reach two digits), leaf names <species>_<id> (a quarter of the cases with species leaves named S<k> themselves), every ancestor of both trees independently unnamed, "
+    "freshly named, named like O<k>/S<k> (k<=4, k<=15 on the large cases) or - object ancestors - named like a leaf of some species (<species>_<n>), leaf_object_species present or omitted, leaf_syntenies present (<=4 families, possibly "
     "inconsistent) or omitted, cost options inside the coherent region spe + 2*sloss <= dup + 2*floss (hgt possibly float('inf'); outside the region `any` can cost more than `all`: known finding F-COHERENCE, witness replayed), one of the seven algorithms, files given by --input/--output or (a quarter of the cases) stdin/stdout.  `reconcile` is run with --solutions any "
     "and all.  Checked: status 0 and >=1 JSON line when a solution exists (status 1 and an empty output file when a super-reconciliation algorithm "
     "gets no syntenies or no root order exists); in every line all node names distinct and non-empty and both trees equal the input trees renamed "
@@ -38,28 +38,45 @@ RULE = (
     "O#/S#-like given name, and >=3 object leaves; distinct by SHA-1 of the case."
 )
 ASSUMPTIONS = ["binary trees; leaf names follow <species>_<id>", "cost options inside the coherent region (F-COHERENCE outside)", "cost options are Python literals accepted by the tool (float(\"inf\") for infinity)"]
-BUDGET = {"quick": {"random": 1500}, "thorough": {"random": 25000}}
+BUDGET = {"quick": {"random": 4000}, "thorough": {"random": 40000}}
 SUPER = {"base_spfs", "ext_spfs", "base_uspfs", "superdtl"}
 
 
 @st.composite
 def _case(draw):
     algo = draw(st.sampled_from(["thl", "ext_spfs", "superdtl", "lca", "exh", "base_spfs", "base_uspfs"]))
-    case = draw(gen.rec_case(max_obj=5, max_sp=4, costs="coherent", labelled=True, max_fam=3))
+    big = algo == "lca" and draw(st.booleans())
+    if big:
+        # naming at sizes where generated labels reach two digits (the LCA algorithm is cheap enough)
+        case = draw(gen.rec_case(max_obj=14, max_sp=10, min_obj=8, costs="coherent", labelled=True, max_fam=3))
+    else:
+        case = draw(gen.rec_case(max_obj=5, max_sp=4, costs="coherent", labelled=True, max_fam=4))
+    if gen.chance(draw, 1, 4):
+        # species leaves that look like generated labels themselves: S<k>, objects S<k>_<id>
+        ks = draw(st.permutations(list(range(12))))
+        smap = {name: f"S{ks[i]}" for i, name in enumerate(gen.SPECIES_NAMES[:10])}
+        omap = {leaf: smap[sp] + leaf[len(sp):] for leaf, sp in case["leaf_object_species"].items()}
+        case = gen.rename_case(case, omap, smap)
+    sleaves = sorted(set(case["leaf_object_species"].values()))
+    top = 15 if big else 4
     for key, prefix in (("object_tree", "O"), ("species_tree", "S")):
         t = parse_newick(case[key])
-        used = set()
+        used = {t.name[n] for n in t.nodes() if t.is_leaf(n)}
         for n in t.preorder():
             if t.is_leaf(n):
                 continue
-            choice = draw(st.sampled_from(["absent", "like", "fresh", "absent"]))
+            choice = draw(st.sampled_from(["absent", "like", "fresh", "absent", "leaflike"]))
             name = ""
             if choice == "fresh":
                 name = f"anc{prefix.lower()}{n}"
             elif choice == "like":
-                name = f"{prefix}{draw(st.integers(0, 4))}"
-                if name in used:
-                    name = ""
+                name = f"{prefix}{draw(st.integers(0, top))}"
+            elif choice == "leaflike" and prefix == "O":
+                # an ancestral object named like a leaf of some species: only leaves take their species from names
+                sp = sleaves[draw(st.integers(0, len(sleaves) - 1))]
+                name = f"{draw(st.sampled_from([sp, sp.lower()]))}_{draw(st.integers(50, 59))}"
+            if name in used:
+                name = ""
             used.add(name)
             t.name[n] = name
         case[key] = t.to_newick()
